@@ -71,7 +71,10 @@ func NewSupport() *Support {
 	ua := &Record{Kind: Struct, Name: "SupUnionA", Support: true, Inline: true, Label: "struct:fixed", Fields: []Field{{Name: "a", Type: P("int32")}}}
 	ub := &Record{Kind: Message, Name: "SupUnionB", Support: true, Inline: true, Label: "message", Fields: []Field{{Name: "s", Index: 1, Type: P("string")}}}
 	un := &Record{Kind: Union, Name: "SupUnion", Support: true, Label: "union", Branches: []Branch{{1, ua}, {2, ub}}}
-	s.Records = []*Record{fixed, vari, empty, ro, msg, emsg, un}
+	// structs without a length prefix of their own whose wire size is not fixed because of what they hold
+	holdM := &Record{Kind: Struct, Name: "SupHoldMsg", Support: true, Label: "struct:holds-message", Fields: []Field{{Name: "m", Type: R(msg)}, {Name: "a", Type: P("int32")}}}
+	holdU := &Record{Kind: Struct, Name: "SupHoldUnion", Support: true, Label: "struct:holds-union", Fields: []Field{{Name: "b", Type: P("byte")}, {Name: "u", Type: R(un)}}}
+	s.Records = []*Record{fixed, vari, empty, ro, msg, emsg, un, holdM, holdU}
 	for _, p := range Primitives {
 		s.Leaves = append(s.Leaves, P(p))
 	}
@@ -97,11 +100,11 @@ func (s *Support) Leaf(name string) *Type {
 
 // Case is one record under test: a shape placed in a context.
 type Case struct {
-	ID    string  // unique, stable: ctx + ordinal of the shape in the enumeration
-	Ctx   string  // S, RO, M, MD, U, PS (pair struct), PM (pair message), X* (special)
-	Shape *Type   // the type under test (nil for specials)
-	Rec   *Record // top-level record
-	Class string  // ctx|shape class — used in signatures
+	ID    string    // unique, stable: ctx + ordinal of the shape in the enumeration
+	Ctx   string    // S, RO, M, MD, U, PS (pair struct), PM (pair message), X* (special)
+	Shape *Type     // the type under test (nil for specials)
+	Rec   *Record   // top-level record
+	Class string    // ctx|shape class — used in signatures
 	Extra []*Record // further definitions rendered AFTER Rec (forward references)
 }
 
@@ -147,7 +150,7 @@ func (s *Support) Shapes(thorough bool) []*Type {
 		}
 	}
 	// depth 2
-	d2leaves := []string{"int32", "string", "byte", "bool", "guid", "date", "EnU16", "SupFixed", "SupVar", "SupMsg", "SupUnion"}
+	d2leaves := []string{"int32", "string", "byte", "bool", "guid", "date", "EnU16", "SupFixed", "SupVar", "SupMsg", "SupUnion", "SupHoldMsg"}
 	d2keys := []string{"string", "uint32"}
 	if thorough {
 		d2leaves = nil
@@ -194,22 +197,24 @@ func (s *Support) Cases(thorough bool) []*Case {
 	after := func() Field { return Field{Name: "after", Type: P("int32")} }
 	for i, t := range shapes {
 		id := func(ctx string) string { return fmt.Sprintf("C%s%d", ctx, i) }
+		// every field under test carries a field-tag comment, so that GenerateFieldTags has something to do
+		tag := `json:"f,omitempty"`
 		// S: struct field between a bait and a sentinel
 		out = append(out, &Case{ID: id("S"), Ctx: "S", Shape: t, Class: "S|" + t.Class(),
-			Rec: &Record{Kind: Struct, Name: id("S"), Fields: []Field{bait(), {Name: "f", Type: t}, after()}}})
+			Rec: &Record{Kind: Struct, Name: id("S"), Fields: []Field{bait(), {Name: "f", Type: t, Tag: tag}, after()}}})
 		out = append(out, &Case{ID: id("RO"), Ctx: "RO", Shape: t, Class: "RO|" + t.Class(),
-			Rec: &Record{Kind: Struct, ReadOnly: true, Name: id("RO"), Fields: []Field{bait(), {Name: "f", Type: t}, after()}}})
+			Rec: &Record{Kind: Struct, ReadOnly: true, Name: id("RO"), Fields: []Field{bait(), {Name: "f", Type: t, Tag: tag}, after()}}})
 		out = append(out, &Case{ID: id("SL"), Ctx: "SL", Shape: t, Class: "SL|" + t.Class(),
-			Rec: &Record{Kind: Struct, Name: id("SL"), Fields: []Field{bait(), {Name: "f", Type: t}}}})
+			Rec: &Record{Kind: Struct, Name: id("SL"), Fields: []Field{bait(), {Name: "f", Type: t, Tag: tag}}}})
 		mf := func(dep bool) []Field {
-			return []Field{{Name: "bait", Index: 1, Type: P("int32")}, {Name: "f", Index: 2, Type: t, Deprecated: dep}, {Name: "after", Index: 3, Type: P("int32")}}
+			return []Field{{Name: "bait", Index: 1, Type: P("int32")}, {Name: "f", Index: 2, Type: t, Deprecated: dep, Tag: tag}, {Name: "after", Index: 3, Type: P("int32")}}
 		}
 		out = append(out, &Case{ID: id("M"), Ctx: "M", Shape: t, Class: "M|" + t.Class(),
 			Rec: &Record{Kind: Message, Name: id("M"), Fields: mf(false)}})
 		out = append(out, &Case{ID: id("MD"), Ctx: "MD", Shape: t, Class: "MD|" + t.Class(),
 			Rec: &Record{Kind: Message, Name: id("MD"), Fields: mf(true)}})
-		ua := &Record{Kind: Struct, Inline: true, Name: id("U") + "A", Fields: []Field{{Name: "f", Type: t}, after()}}
-		ub := &Record{Kind: Message, Inline: true, Name: id("U") + "B", Fields: []Field{{Name: "f", Index: 1, Type: t}, {Name: "after", Index: 2, Type: P("int32")}}}
+		ua := &Record{Kind: Struct, Inline: true, Name: id("U") + "A", Fields: []Field{{Name: "f", Type: t, Tag: tag}, after()}}
+		ub := &Record{Kind: Message, Inline: true, Name: id("U") + "B", Fields: []Field{{Name: "f", Index: 1, Type: t, Tag: tag}, {Name: "after", Index: 2, Type: P("int32")}}}
 		out = append(out, &Case{ID: id("U"), Ctx: "U", Shape: t, Class: "U|" + t.Class(),
 			Rec: &Record{Kind: Union, Name: id("U"), Branches: []Branch{{1, ua}, {2, ub}}}})
 	}
@@ -247,6 +252,12 @@ func (s *Support) Cases(thorough bool) []*Case {
 	sp("CXBigStrArr", "big-string-array", &Record{Kind: Struct, Fields: []Field{{Name: "a", Type: A(P("string"))}, after()}})
 	sp("CXBigMap", "big-map", &Record{Kind: Struct, Fields: []Field{{Name: "m", Type: M("uint32", P("bool"))}, after()}})
 	sp("CXBigMsg", "big-message", &Record{Kind: Message, Fields: []Field{{Name: "s", Index: 1, Type: P("string")}, {Name: "a", Index: 2, Type: A(P("uint16"))}, {Name: "b", Index: 3, Type: A(P("byte"))}}})
+	// the big message nested in a struct, and a struct with a big payload nested in a message
+	bigMsg := out[len(out)-1].Rec
+	sp("CXBigHoldMsg", "big-message-in-struct", &Record{Kind: Struct, Fields: []Field{bait(), {Name: "m", Type: R(bigMsg)}, after()}})
+	bigStr := &Record{Kind: Struct, Name: "CXBigInner", Support: true, Label: "struct:var", Fields: []Field{{Name: "n", Type: P("uint32")}, {Name: "b", Type: A(P("byte"))}}}
+	out = append(out, &Case{ID: "CXBigInMsg", Ctx: "X", Class: "X|big-struct-in-message", Extra: []*Record{bigStr},
+		Rec: &Record{Kind: Message, Name: "CXBigInMsg", Fields: []Field{{Name: "bait", Index: 1, Type: P("int32")}, {Name: "s", Index: 2, Type: R(bigStr)}}}})
 	bigU := &Record{Kind: Union, Name: "CXBigUnion"}
 	bigU.Branches = []Branch{{1, &Record{Kind: Struct, Inline: true, Name: "CXBigUnionA", Fields: []Field{{Name: "b", Type: A(P("byte"))}}}}, {2, &Record{Kind: Message, Inline: true, Name: "CXBigUnionB", Fields: []Field{{Name: "s", Index: 1, Type: P("string")}}}}}
 	out = append(out, &Case{ID: "CXBigUnion", Ctx: "X", Class: "X|big-union", Rec: bigU})
@@ -257,6 +268,12 @@ func (s *Support) Cases(thorough bool) []*Case {
 	out = append(out, &Case{ID: "CXFwd", Ctx: "X", Class: "X|forward-declared-structs", Rec: fwd, Extra: []*Record{fwdA, fwdB}})
 	fwdM := &Record{Kind: Message, Name: "CXFwdM", Fields: []Field{{Name: "items", Index: 1, Type: A(R(fwdA))}, {Name: "after", Index: 2, Type: P("int32")}}}
 	out = append(out, &Case{ID: "CXFwdM", Ctx: "X", Class: "X|forward-declared-structs-in-message", Rec: fwdM, Extra: []*Record{fwdA, fwdB}})
+	// a chain of forward references three deep under an array, written top-down (sizing needs as many passes as the chain is long)
+	f3d := &Record{Kind: Struct, Name: "CXFwd3D", Support: true, Label: "struct:fixed", Fields: []Field{{Name: "x", Type: P("int32")}, {Name: "y", Type: P("int32")}}}
+	f3c := &Record{Kind: Struct, Name: "CXFwd3C", Support: true, Label: "struct:forward-declared", Fields: []Field{{Name: "p", Type: R(f3d)}}}
+	f3b := &Record{Kind: Struct, Name: "CXFwd3B", Support: true, Label: "struct:forward-declared", Fields: []Field{{Name: "s", Type: R(f3c)}, {Name: "n", Type: P("uint16")}}}
+	f3 := &Record{Kind: Struct, Name: "CXFwd3", Fields: []Field{{Name: "legs", Type: A(R(f3b))}, {Name: "m", Type: M("uint32", R(f3b))}, after()}}
+	out = append(out, &Case{ID: "CXFwd3", Ctx: "X", Class: "X|forward-declared-structs-3-deep", Rec: f3, Extra: []*Record{f3b, f3c, f3d}})
 	// recursion through a message / a union
 	rm := &Record{Kind: Message, Name: "CXRecM"}
 	rm.Fields = []Field{{Name: "v", Index: 1, Type: P("int32")}, {Name: "next", Index: 2, Type: R(rm)}, {Name: "kids", Index: 3, Type: A(R(rm))}}
